@@ -201,6 +201,114 @@ Proof.
   - ssimpl. apply Rs_failed. exact HR.
 Qed.
 
+(* ------------------------------------------------------------------ GraphStream.graph (a generator) *)
+Fixpoint emitted (evs : list tev) : list frame :=
+  match evs with
+  | [] => []
+  | Emit f :: rest => f :: emitted rest
+  | _ :: rest => emitted rest
+  end.
+
+Lemma emitted_app a b : emitted (a ++ b) = emitted a ++ emitted b.
+Proof. induction a as [|[|f|e] a IH]; cbn; [reflexivity | exact IH | now rewrite IH | exact IH]. Qed.
+
+Lemma emitted_emit_opt o : map (frame_msg rmsg) (emitted (emit_opt o)) = match option_map (frame_msg rmsg) o with Some f => [f] | None => [] end.
+Proof. destruct o; reflexivity. Qed.
+
+Notation gen_graph := (Stream_graph SN term_eqb enc_spo enc_graph).
+
+(* the frames it yields are the model's Emit events, in order; it ends normally exactly when the model does; the stream
+   it leaves is the model's *)
+Theorem source_stream_graph_is_model (gid : term) (triples : list (list term)) g m : Rs g m -> st_class m = GraphStream ->
+  match gen_graph gid triples g, stream_graph gid triples m with
+  | (r, g', _, ys), (m', evs, ok) =>
+      Rs g' m' /\ ys = map (frame_msg rmsg) (emitted evs) /\ (match r with Val _ => ok = true | Exn _ => ok = false end)
+  end.
+Proof.
+  intros HR Hc. pose proof HR as (Ht & Hi & He & Ho & Hfl & Hen & Hf & Hst).
+  unfold Stream_graph, stream_graph. rewrite Ht, Hc. cbn [tag_of_class]. cbv zeta.
+  rewrite (tie_ensure_usable g m HR).
+  destruct (st_failed m) eqn:Ef; [split; [exact HR|]; split; reflexivity|].
+  destruct (He eq_refl) as [HRt Hrep].
+  pose proof (source_start_statement_is_model (Stream_encoder SN g) (st_enc m) HRt) as H0.
+  destruct (TermEncoder_start_statement SN (Stream_encoder SN g)) as [[u|e0] ge0]; [|contradiction].
+  unfold E.encode_graph_start. rewrite Hi.
+  pose proof (H_graph gid (PMsg "RdfGraphStart" []) ge0 (E.start_statement (st_enc m)) H0) as Hg.
+  cbn [Stream_encoder set_Stream_encoder]. norm.
+  destruct (enc_graph gid (PMsg "RdfGraphStart" []) ge0) as [[[grows|eg] ge1] gstart];
+    destruct (E.encode_graph_term ig gid (E.start_statement (st_enc m))) as [[[t1 mrows] w]|e'] eqn:Egt; try contradiction; cbn [bind]; cbv beta iota zeta.
+  2:{ (* the graph name is refused *)
+      split; [|split; reflexivity].
+      pose proof (Rs_failed g m ge1 (Stream_repeated_terms SN g) HR) as HF.
+      assert (Hsame : set_Stream_repeated_terms SN (Stream_repeated_terms SN g) (set_Stream_encoder SN ge1 g) = set_Stream_encoder SN ge1 g)
+        by (destruct g; reflexivity).
+      rewrite Hsame in HF. exact HF. }
+  destruct Hg as (-> & HRt1 & ->).
+  (* the stream once the graph start is in the flow *)
+  set (g1 := set_Stream_flow SN _ _).
+  set (m1 := with_enc m t1 (st_rep m) (flow_extend (st_flow m) (mrows ++ [RGraphStart (Some w)]))).
+  assert (HR1 : Rs g1 m1).
+  { unfold g1, m1, with_enc, Rs. ssimpl.
+    split; [exact Ht|]. split; [exact Hi|]. split; [intros _; split; [exact HRt1 | exact Hrep]|]. split; [exact Ho|].
+    split; [|split; [exact Hen|]; split; [rewrite Hf; symmetry; exact Ef | exact Hst]].
+    replace (map rmsg mrows ++ [PMsg "RdfStreamRow" [("graph_start"%string, put 3 w (PMsg "RdfGraphStart" []))]])
+      with (map rmsg (mrows ++ [RGraphStart (Some w)])) by (rewrite map_app; reflexivity).
+    apply (Rf_extend rmsg). exact Hfl. }
+  assert (Hc1 : st_class m1 = GraphStream) by exact Hc.
+  (* the loop over the triples *)
+  match goal with |- context [?f triples (g1, triples, @nil (pbval str))] => set (loop := f) end.
+  assert (Hloop : forall (xs : list (list term)) (gx : GStream) (mx : stream) (gr : list (list term)) (ys : list (pbval str)),
+             Rs gx mx -> st_class mx = GraphStream ->
+             match loop xs (gx, gr, ys), graph_triples xs mx with
+             | LContinue (g', _, ys'), (m', evs, true) => Rs g' m' /\ ys' = ys ++ map (frame_msg rmsg) (emitted evs) /\ st_class m' = GraphStream
+             | LRaise _ (g', _, ys'), (m', evs, false) => Rs g' m' /\ ys' = ys ++ map (frame_msg rmsg) (emitted evs)
+             | _, _ => False
+             end).
+  { induction xs as [|tr xs IH]; intros gx mx gr ys HRx Hcx.
+    - cbn. split; [exact HRx|]. split; [rewrite app_nil_r; reflexivity | exact Hcx].
+    - cbn [graph_triples]. unfold loop at 1. fold loop. cbv beta iota.
+      pose proof (source_stream_triple_is_model tr gx mx HRx ltac:(rewrite Hcx; discriminate)) as Hstep.
+      destruct (gen_triple tr gx) as [[[fr|e] gx'] tr'];
+        destruct (stream_triple tr mx) as [mx' [mfr|e']] eqn:Est; try contradiction.
+      + destruct Hstep as [-> HRx'].
+        assert (Hcx' : st_class mx' = GraphStream).
+        { unfold stream_triple in Est. destruct (st_failed mx); [injection Est as <- _; exact Hcx|].
+          destruct (E.encode_triple (st_integ mx) tr (st_enc mx) (st_rep mx)) as [[[t' rp'] rws]|]; [|discriminate].
+          destruct (frame_from_bounds (flow_extend (st_flow mx) rws)) as [fl fr0]. injection Est as <- _. exact Hcx. }
+        destruct mfr as [f|]; cbn [option_map].
+        * specialize (IH gx' mx' gr (ys ++ [frame_msg rmsg f]) HRx' Hcx').
+          destruct (loop xs (gx', gr, ys ++ [frame_msg rmsg f])) as [[[g' gr'] ys']|rv [[g' gr'] ys']|e [[g' gr'] ys']];
+            destruct (graph_triples xs mx') as [[m' evs] ok]; destruct ok; try contradiction.
+          -- destruct IH as (HR' & -> & Hc'). split; [exact HR'|]. split; [|exact Hc'].
+             cbn [emit_opt app emitted map]. rewrite <- app_assoc. reflexivity.
+          -- destruct IH as (HR' & ->). split; [exact HR'|]. cbn [emit_opt app emitted map]. rewrite <- app_assoc. reflexivity.
+        * specialize (IH gx' mx' gr ys HRx' Hcx').
+          destruct (loop xs (gx', gr, ys)) as [[[g' gr'] ys']|rv [[g' gr'] ys']|e [[g' gr'] ys']];
+            destruct (graph_triples xs mx') as [[m' evs] ok]; destruct ok; try contradiction; exact IH.
+      + cbn. split; [exact Hstep | rewrite app_nil_r; reflexivity]. }
+  specialize (Hloop triples g1 m1 triples [] HR1 Hc1).
+  destruct (loop triples (g1, triples, [])) as [[[g2 gr2] ys2]|rv [[g2 gr2] ys2]|e [[g2 gr2] ys2]];
+    destruct (graph_triples triples m1) as [[m2 evs] ok]; destruct ok; try contradiction.
+  - (* all triples accepted: the graph end, then a frame if the flow is full *)
+    destruct Hloop as (HR2 & -> & Hc2). cbn [app].
+    pose proof HR2 as (Ht2 & Hi2 & He2 & Ho2 & Hfl2 & Hen2 & Hf2 & Hst2).
+    pose proof (Rf_extend rmsg _ _ [RGraphEnd] Hfl2) as Hext. cbn [map EncodeStmtTie.rmsg] in Hext.
+    pose proof (source_frame_from_bounds_is_model rmsg _ _ Hext) as Hb.
+    cbn [Stream_flow set_Stream_flow].
+    norm.
+    match goal with |- context [FrameFlow_frame_from_bounds SN ?f] => destruct (FrameFlow_frame_from_bounds SN f) as [[fr|eb] gf'] end;
+      destruct (frame_from_bounds (flow_extend (st_flow m2) [RGraphEnd])) as [mf' mfr]; [|contradiction].
+    destruct Hb as [-> Hfl'].
+    assert (HR3 : Rs (set_Stream_flow SN gf' (set_Stream_flow SN (set_FrameFlow_data SN (FrameFlow_data (Stream_flow SN g2) ++ [PMsg "RdfStreamRow" [("graph_end"%string, PMsg "RdfGraphEnd" [])]]) (Stream_flow SN g2)) g2))
+                     (with_flow m2 mf')).
+    { unfold with_flow, Rs. ssimpl. split; [exact Ht2|]. split; [exact Hi2|]. split; [exact He2|]. split; [exact Ho2|].
+      split; [exact Hfl'|]. split; [exact Hen2|]. split; [exact Hf2 | exact Hst2]. }
+    destruct mfr as [f|]; cbn [option_map]; (split; [exact HR3|]; split; [|reflexivity]);
+      rewrite emitted_app, map_app; cbn [emit_opt emitted map]; rewrite ?app_nil_r; reflexivity.
+  - (* a triple was refused *)
+    destruct Hloop as (HR2 & ->). split; [exact HR2|]. split; reflexivity.
+Qed.
+
 (* ------------------------------------------------------------------ construction *)
 Definition ctor (c : stream_class) :=
   match c with
@@ -300,3 +408,4 @@ Print Assumptions source_enroll_is_model.
 Print Assumptions source_namespace_declaration_is_model.
 Print Assumptions source_stream_triple_is_model.
 Print Assumptions source_stream_quad_is_model.
+Print Assumptions source_stream_graph_is_model.
